@@ -395,10 +395,76 @@ def extract_geometry(chk, repo):
     return corner_pos, edge_ends, ok_perm, vv
 
 
+def geometry_obligations(chk, repo):
+    """What the table checks take for granted about the cell and the driver: the corner gradients are differences along the cube's own
+    edges, the extreme values are taken over all eight corners, and the driver visits every cell of the volume exactly once, reading the
+    array axes (z, y, x) it sizes its loops by."""
+    pyx = repo.module(PYX)
+    # corner coordinates of v0..v7 as the driver passes them
+    dv = pyx.ev("marching_cubes")
+    sc = [e for e in dv.events if e.kind == "call" and call_name(e.value.as_atom() or ()) == ".set_cube"][0]
+    args = sc.extra["args"]
+    x, y, z, step = args[1], args[2], args[3], args[4]
+    by_v = []
+    for a in args[5:]:
+        iz, iy, ix = a.as_atom()[2]
+        by_v.append(tuple(0 if (g - b).is_zero() else 1 for g, b in ((ix, x), (iy, y), (iz, z))))
+    where = {c: k for k, c in enumerate(by_v)}
+    pv = pyx.ev("Cell.prepare_for_adding_triangles")
+    grads = {}
+    for e in pv.events:
+        if e.kind == "store" and e.target.key().startswith("self.vg[") and e.target.as_atom()[2][0].const_value() is not None:
+            grads[int(e.target.as_atom()[2][0].const_value())] = e.value
+    V = lambda k: P.atom(("attr", P.name("self"), f"v{k}"))
+    bad = []
+    for c in range(8):
+        for d in range(3):
+            lo = list(by_v[c])
+            hi = list(by_v[c])
+            lo[d], hi[d] = 0, 1
+            want = V(where[tuple(lo)]) - V(where[tuple(hi)])
+            got = grads.get(c * 3 + d)
+            if got is None or got != want:
+                bad.append(f"vg[{c}*3+{d}] = {got} (edge through corner {c} along axis {d}: {want})")
+    chk.ob("T06.4", PYX, "Cell.prepare_for_adding_triangles", "the gradient stored for corner c and axis d is the value difference along the cube edge through c in "
+           "direction d, taken low end minus high end for every corner alike (24 entries)", len(grads) == 24 and not bad, fingerprint="corner-gradients",
+           found=bad[:2] or f"{len(grads)} entries")
+    rng = [l for l in pv.all_loops if l.kind in ("range", "literal")]
+    tests = [e for e in pv.events if e.kind == "test" and "self.vv[" in e.value.key()]
+    idxs = {int(a[2][0].const_value()) for e in tests for a in find_atoms(e.value, lambda a: a[0] == "sub" and a[1].key() == "self.vv" and a[2][0].const_value() is not None)}
+    chk.ob("T06.4", PYX, "Cell.prepare_for_adding_triangles", "the largest and the smallest corner value are taken over all eight corners", idxs == set(range(8)) or
+           any(l.kind == "range" and l.lo == P.const(0) and l.hi == P.const(8) for l in rng), fingerprint="extremes-all-corners", found=sorted(idxs))
+    # the driver: sizes from the axes it indexes by, and every cell once
+    names = {"x": 2, "y": 1, "z": 0}          # im[z, y, x]
+    sizes = {}
+    for nm, ax in names.items():
+        lps = [l for l in dv.all_loops if l.kind == "while" and l.iter.as_atom() and l.iter.as_atom()[0] == "lt"
+               and find_atoms(l.iter.as_atom()[1], lambda a: a[0] == "lc" and a[1] == nm)]
+        ok = False
+        desc = None
+        if len(lps) == 1:
+            l = lps[0]
+            lc = find_atoms(l.iter.as_atom()[1], lambda a: a[0] == "lc" and a[1] == nm)[0]
+            start = lc[3]
+            bound = l.iter.as_atom()[2]
+            body = [e for e in dv.events if e.loops and e.loops[-1].k == l.k]
+            base_g = min((len(e.guards) for e in body), default=0)
+            steps = [e for e in body if e.kind == "assign" and e.name == nm and len(e.guards) == base_g]
+            first_is_step = bool(body) and body[0].kind == "assign" and body[0].name == nm
+            st_ = P.name(dv.param_names[3])
+            N = P.atom(("sub", P.atom(("attr", P.name(dv.param_names[0]), "shape")), (P.const(ax),)))
+            ok = l.iter.as_atom()[1].key() == P.atom(lc).key() and start == -st_ and bound == N - 2 * st_ and len(steps) == 1 \
+                and steps[0].value == P.atom(lc) + st_ and first_is_step
+            desc = f"start {start}, while {nm} < {bound}, step {[str(e.value) for e in steps]}"
+        chk.ob("T06.4", PYX, "marching_cubes", f"the {nm} loop visits the cells {nm} = 0, st, 2 st, ... with {nm} + st <= N - 1 exactly once: start -st, advance by st "
+               f"first, continue while {nm} < N - 2 st, N the length of array axis {ax} (the axis {nm} indexes)", ok, fingerprint=f"driver-loop:{nm}", found=desc)
+
+
 def t06_4(chk, repo, tables, calls):
     corner_pos, edge_ends, ok_perm, vv = extract_geometry(chk, repo)
     chk.ob("T06.4", PYX, "Cell.prepare_for_adding_triangles", "vv[dz*4 + dy*2 + dx] holds the value of the corner at (dx, dy, dz)", ok_perm,
            found=str(vv))
+    geometry_obligations(chk, repo)
     cube = mclut.Cube(corner_pos, edge_ends)
     cases_tab = tables["CASES"]
     by_case = {}
